@@ -26,7 +26,7 @@ Here is one semantic property the crate is supposed to satisfy:
 
 TASK: produce ONE small, realistic change to the crate's source (under src/) — the kind of slip a maintainer could make in a refactoring, a clean-up or an "optimisation" — that BREAKS this property, while the crate still compiles and the ENTIRE existing test suite (`cargo test --offline`, 165 tests + doc tests) still passes. The change must need something specific to manifest: a particular multi-step sequence of operations, an unusual input, a boundary size, an unusual configuration (OpenOptions, format version 3 vs 4, a very large file, spare capacity or unusual-but-valid structure in a file another writer produced), a fault at a particular point, a particular interleaving, or two cooperating sites that each look fine alone. It must NOT be something ordinary use would expose at once.
 
-Earlier rounds (fourteen of them) already used the following sites for this property — pick a mechanism that is genuinely DIFFERENT from all of them (not the same comparison at another place), and preferably a function/module that is absent from the list:
+Earlier rounds (sixteen of them) already used the following sites for this property — pick a mechanism that is genuinely DIFFERENT from all of them (not the same comparison at another place), and preferably a function/module that is absent from the list:
 {chr(10).join(used)}
 
 Deliverables, all in /tmp/seed/{sid}/SEED/ (create the directory):
